@@ -4,7 +4,7 @@
 (* {0..size+1, 2^32, 2^64-1} and every by-name look-up with present / absent / upper-cased /  *)
 (* space-padded names, and the typed value getters. Names are also *given* with trailing      *)
 (* spaces (declaration, setter, naming constructor) and must be stored and found trimmed.     *)
-EXTENDS EzApi, Json
+EXTENDS EzContents, Json
 CONSTANTS NPts, NFr
 
 blank == <<32, 32>>      \* a name made of spaces only: stored and found as the empty name
@@ -17,10 +17,18 @@ MC_ARates == {FOfNat(100), FOfNat(200)}
 MC_FrameKinds == {"conf", "padded", "ctorpad", "dupnames"}
 MC_ColKinds == {"ok1"}
 MC_Tags == {1}
-MC_UserParams == << [g |-> gG1, p |-> [n |-> nA, d |-> <<100>>, l |-> 0, sets |-> <<[t |-> TCHAR, v |-> <<<<120, 121>>, <<122>>>>, dim |-> <<>>, scalar |-> 0]>>]] >>
+MC_UserParams == << [g |-> gG1, p |-> [n |-> nA, d |-> <<100>>, l |-> 0, sets |-> <<[t |-> TCHAR, v |-> <<<<120, 121>>, <<122>>>>, dim |-> <<>>, scalar |-> 0]>>]],
+                    \* a float parameter on which a text set was refused afterwards: it reads as floats, not as text
+                    [g |-> gG1, p |-> [n |-> <<66>>, d |-> <<>>, l |-> 0, sets |-> <<[t |-> TFLOAT, v |-> <<FOne>>, dim |-> <<>>, scalar |-> 0],
+                                                                                     [t |-> TCHAR, v |-> <<<<120>>, <<121>>>>, dim |-> <<3>>, scalar |-> 0]>>]] >>
 MC_LockNames == {}
 MC_CallerIds == {}
-MC_Files == <<>>
+\* one object comes from a file: byte-typed, 3-D, one-dimensional text and empty parameters, a locked group (the typed getters and
+\* the look-ups over what only a loaded object can hold); it is only queried
+MC_Files == << EncodeWith(AddG(C_small, ExtraGroup), DefaultLayout(Len(C_small.grp) + 1)) >>
+LoadedOnlyQueried == /\ (lastOp'.op = "LoadBytes" => hist = <<>>)
+                     /\ ((Len(hist) > 0 /\ hist[Len(hist)].op = "LoadBytes") => hist' = hist)
+MCNext == Next /\ LoadedOnlyQueried
 MC_AliasGroups == {}
 Dump == ~Sampled(Len(hist)) \/ PrintT(ToJson([path |-> hist, op |-> lastOp', out |-> lastOut', res |-> lastRes',
                        post |-> [hdr |-> AbsHdr(obj'.hdr), frm |-> obj'.frm]]))
